@@ -31,7 +31,8 @@ RULE = ("schemas with 1..3 abstract types (in a generated base package or "
         "repeated imports, imports of a plain module, a missing package and "
         "a package without component.xml; sequences of 1..4 loads against "
         "one schema object.  distinct_nontrivial = distinct (kinds of "
-        "lines in order, expected outcome) signatures.")
+        "lines in order, expected outcome) signatures."
+        ' The kept loader is a ConfigLoader, an ExtendedConfigLoader or one with an option; some worlds keep the abstract types and the slot-holding type in a library schema imported by <import src>; refused %import names include a plain module inside a component package.')
 LEVEL_TEXT = ("Every load is compared with a reference that tracks the "
               "admitted implementer set line by line; the application "
               "schema's implementer tables are observed around every load.")
